@@ -21,6 +21,12 @@ fn s_v(s: &str) -> Value {
 }
 
 fn spoil_hex(s: &str, pos: &str) -> String {
+    // a recorded digest of another length differs as well
+    match pos {
+        "short" => return s[..s.len() - 1].to_string(),
+        "long" => return format!("{s}0"),
+        _ => {}
+    }
     let mut c: Vec<char> = s.chars().collect();
     let i = match pos { "first" => 0, "last" => c.len() - 1, _ => c.len() / 2 };
     c[i] = if c[i] == '0' { '1' } else { '0' };
@@ -28,6 +34,11 @@ fn spoil_hex(s: &str, pos: &str) -> String {
 }
 fn spoil_bin(b: &[u8], pos: &str) -> Vec<u8> {
     let mut c = b.to_vec();
+    match pos {
+        "short" => { c.pop(); return c; }
+        "long" => { c.push(0); return c; }
+        _ => {}
+    }
     let i = match pos { "first" => 0, "last" => c.len() - 1, _ => c.len() / 2 };
     c[i] ^= 0x01;
     c
